@@ -105,12 +105,16 @@ class PyEmit:
         if t == "or": return f"({self.e(e[1])} or {self.e(e[2])})"
         if t == "eq": return f"({self.e(e[1])} == {self.e(e[2])})"
         if t == "add": return f"({self.e(e[1])} + {self.e(e[2])})"
+        if t == "sub": return f"({self.e(e[1])} - {self.e(e[2])})"
+        if t == "lt": return f"({self.e(e[1])} < {self.e(e[2])})"
         if t == "probe": return f"probe({e[1]}, {self.e(e[2])})"
         raise ValueError(e)
 
     def s(self, s, ind: str, out: list) -> None:
         t = s[0]
         if t == "pass": out.append(ind + "pass")
+        elif t == "brk": out.append(ind + "break")
+        elif t == "cont": out.append(ind + "continue")
         elif t == "decl": out.append(f"{ind}{self.v(s[1])}: {ty_py(self.decl[s[1]])} = {self.e(s[2])}")
         elif t == "assign": out.append(f"{ind}{self.v(s[1])} = {self.e(s[2])}")
         elif t == "setAttr": out.append(f"{ind}{self.e(s[1])}.a{s[2]} = {self.e(s[3])}")
@@ -205,6 +209,8 @@ def expr_lean(e) -> list:
     if t == "or": return ["|"] + expr_lean(e[1]) + expr_lean(e[2])
     if t == "eq": return ["="] + expr_lean(e[1]) + expr_lean(e[2])
     if t == "add": return ["+"] + expr_lean(e[1]) + expr_lean(e[2])
+    if t == "sub": return ["-"] + expr_lean(e[1]) + expr_lean(e[2])
+    if t == "lt": return ["<"] + expr_lean(e[1]) + expr_lean(e[2])
     if t == "probe": return ["P", str(e[1])] + expr_lean(e[2])
     raise ValueError(e)
 
@@ -212,6 +218,8 @@ def expr_lean(e) -> list:
 def stmt_lean(s) -> list:
     t = s[0]
     if t == "pass": return ["pass"]
+    if t == "brk": return ["BR"]
+    if t == "cont": return ["CT"]
     if t == "decl": return ["D", str(s[1])] + expr_lean(s[2])
     if t == "assign": return ["X", str(s[1])] + expr_lean(s[2])
     if t == "setAttr": return ["W"] + expr_lean(s[1]) + [str(s[2])] + expr_lean(s[3])
